@@ -323,7 +323,8 @@ child" case.
 The path enumeration abstracts values away exactly like `path_outcomes` above (both arms of every `if`, zero or
 one iteration of every loop, `try` bodies with and without handlers), with one refinement: a helper that returns
 the constant `None` (or a tuple whose first item is `None`) on some path is correlated with a test
-`x is None` / `x is not None` / `not x` / `x` on the variable bound to that result.
+`x is None` / `x is not None` / `not x` / `x` on the variable bound to that result, and the answer of a test
+`self.X is None` / `is not None` is a fact of the path shared with the `self.` helpers called on it.
 Over-approximation => a reported path may be infeasible; exemptions needed on the tree are written in the
 contract file with their reason. Under-approximation (stated): child calls made inside property getters and in
 functions of other modules are not seen; GC lifetime of weakly referenced canvases is out of scope.
@@ -691,12 +692,19 @@ class DepAnalysis:
         for k, v in (kwargs or {}).items():
             if v is not None and (k in params or k in [p.arg for p in a.kwonlyargs]):
                 binding[k] = v
+        for k, v in st.env.items():
+            if k.startswith("self."):
+                binding[k] = v  # facts about self's attributes hold in the helper too
         outs = self.outcomes(target, binding)
         res = []
-        for consulted, need_all, rv in outs:
+        for consulted, need_all, rv, facts in outs:
+            if any(st.env.get(k) is not None and st.env[k] != v for k, v in facts):
+                continue  # the helper's path assumed the opposite about an attribute of self
             s = st.copy()
             s.consulted |= consulted
             s.need_all |= need_all
+            for k, v in facts:
+                s.env[k] = v
             res.append((s, rv))
         return res or []
 
@@ -740,7 +748,7 @@ class DepAnalysis:
         if k in self.memo:
             return self.memo[k]
         if k in self.active:
-            return {(frozenset(), frozenset(), None)}
+            return {(frozenset(), frozenset(), None, frozenset())}
         self.refs[ref.key] = ref
         self.active.add(k)
         try:
@@ -751,13 +759,17 @@ class DepAnalysis:
             for s, v in ret:
                 if is_render:
                     v = self.check_return(s, v, ref, getattr(s, "_line", ref.node.lineno))
-                outs.add((s.consulted, s.need_all if not is_render else frozenset(), self._ret_abs(v)))
+                outs.add((s.consulted, s.need_all if not is_render else frozenset(), self._ret_abs(v), self._facts(s)))
             for s in fall:
-                outs.add((s.consulted, s.need_all, _NONE))
+                outs.add((s.consulted, s.need_all, _NONE, self._facts(s)))
         finally:
             self.active.discard(k)
         self.memo[k] = outs
         return outs
+
+    @staticmethod
+    def _facts(st):
+        return frozenset((k, v) for k, v in st.env.items() if k.startswith("self."))
 
     @staticmethod
     def _ret_abs(v):
@@ -821,6 +833,12 @@ class DepAnalysis:
                 name, none_when_true = t.left.id, False
         elif isinstance(t, ast.Name):
             name, none_when_true = t.id, False  # truthy => not None
+        learn = False
+        if (name is None and isinstance(t, ast.Compare) and len(t.ops) == 1 and isinstance(t.ops[0], (ast.Is, ast.IsNot)) and isinstance(t.left, ast.Attribute)
+                and isinstance(t.left.value, ast.Name) and t.left.value.id == me and isinstance(t.comparators[0], ast.Constant) and t.comparators[0].value is None):
+            # `self.X is None` / `is not None`: the attribute does not change while rendering, so the answer is a FACT of
+            # the path, remembered under "self.<group>" and shared with the `self.` helpers called on this path
+            name, none_when_true, learn = "self." + _group_name(t.left.attr), isinstance(t.ops[0], ast.Is), True
         res = self.ev(test, st, me, ref)
         tr, fa = [], []
         for s, _v in res:
@@ -840,8 +858,12 @@ class DepAnalysis:
                     truth = truth != neg_
                     (tr if truth else fa).append(s)
                     continue
-            tr.append(s.copy())
-            fa.append(s.copy())
+            a_, b_ = s.copy(), s.copy()
+            if learn:
+                a_.env[name] = _NONE if (none_when_true != neg_) else _VAL
+                b_.env[name] = _VAL if (none_when_true != neg_) else _NONE
+            tr.append(a_)
+            fa.append(b_)
         return tr, fa
 
     # ---- statements
@@ -1088,7 +1110,7 @@ def analyse_render_deps(cls, exempt=None):
         return [(key, False, "no render method found in the repository MRO")], []
     an.outcomes(ref)
     viol = sorted(set(an.violations))
-    groups = sorted({g for outs in an.memo.values() for (c, _n, _v) in outs for g in c})
+    groups = sorted({g for outs in an.memo.values() for (c, _n, _v, _f) in outs for g in c})
     kept, waived = [], []
     def ordinal(qual, line):
         """Ordinal of the `return` statement among the returns of its method (stable under edits elsewhere)."""
